@@ -343,8 +343,7 @@ def shards(tier, seed):
     if quick:
         # one fluent in every position next to parameters / concrete constants; two fluent occurrences; a symbolic constant
         one = [list(c) for c in _combos(3, ["F0", "P0", "Cd"]) if c.count("F0") == 1]
-        Q3 = one + [["F0", "F0", "P0"], ["F0", "P0", "F0"], ["P0", "F0", "F0"], ["F0", "F1", "P0"], ["F0", "P0", "F1"], ["P0", "F0", "F1"],
-                    ["F0", "C", "P0"], ["C", "F0", "P0"], ["P0", "C", "F0"]]
+        Q3 = one + [["F0", "F0", "P0"], ["F0", "P0", "F0"], ["F0", "F1", "P0"], ["F0", "P0", "F1"], ["F0", "C", "P0"]]
         for shape in ("left", "right"):
             for top in "+-*/":
                 sh(f"{shape}-top-{NM[top]}-inner-plus-minus", shape, Q3, [p for p in PAIRS if p[0] == top and p[1] in "+-"])
